@@ -216,6 +216,9 @@ def gen_scn(rng, idx, params):
            "bare_single": rng.random() < 0.5}
     if rng.random() < 0.1 and cm.have_numpy():
         scn["numpy"] = rng.choice([True, "mixed", "mixed"])   # numpy.float64 prices and volumes: on all candles, or on every other one
+    if rng.random() < 0.15:
+        scn["reidx"] = rng.choice([0, "neg"])
+    meta.update(reidx=scn.get("reidx") is not None)
     meta.update(kind=kind, tf_unit=tf[0] if tf else "-", fill=bool(fill), ha=ha, schedule=shape, rv=kw.get("round_value", 4), numpy=bool(scn.get("numpy")))
     return scn, meta
 
@@ -226,6 +229,13 @@ def check(scn):
     info = {"evaluated": 0, "raised": exc is not None}
     if exc is not None:  # totality is C09's property
         return None, info
+    if scn.get("reidx") is not None and len(ind.candles) > 1:
+        # the finished series with ONE candle recomputed in place (calculate_index at the first index, given as 0 or as -len): the
+        # invariants are about the stored series, however it came about
+        try:
+            ind.calculate_index(0 if scn["reidx"] == 0 else -len(ind.candles))
+        except Exception:  # totality / convergence of maintenance calls are C09's and C14's
+            return None, info
     stream = [cm.candle_tuple(c) for c in ind.candles]
     out = [cm.pyval(r) for r in ind.as_list()]
     info["evaluated"] = sum(1 for r in out if r is not None and (not isinstance(r, dict) or any(v is not None for v in r.values())))
